@@ -47,6 +47,13 @@ func TestC19ListenerTimeoutsAreNotUpstreamLimits(t *testing.T) {
 		if rapid.IntRange(0, 2).Draw(t, "listener-has-wt") == 0 {
 			wt = 10 * time.Second
 		}
+		// ... and so is its idle timeout (it=): it is about connections between requests
+		it := time.Duration(0)
+		if rapid.IntRange(0, 2).Draw(t, "listener-has-no-it") == 0 {
+			it = 0
+		} else {
+			it = rt
+		}
 		T := 4 * rt // proxy.responseheadertimeout
 		slow := rapid.Bool().Draw(t, "upstream-silent")
 		D := 2 * rt // later than the listener's read timeout, well inside the limit
@@ -66,7 +73,7 @@ func TestC19ListenerTimeoutsAreNotUpstreamLimits(t *testing.T) {
 		}
 		addr := ln.Addr().String()
 		ln.Close()
-		go proxy.ListenAndServeHTTP(config.Listen{Addr: addr, Proto: "http", ReadTimeout: rt, WriteTimeout: wt}, p, nil)
+		go proxy.ListenAndServeHTTP(config.Listen{Addr: addr, Proto: "http", ReadTimeout: rt, WriteTimeout: wt, IdleTimeout: it}, p, nil)
 		var c net.Conn
 		for i := 0; i < 400; i++ {
 			if c, err = net.DialTimeout("tcp", addr, 100*time.Millisecond); err == nil {
@@ -84,7 +91,7 @@ func TestC19ListenerTimeoutsAreNotUpstreamLimits(t *testing.T) {
 		resp, err := http.ReadResponse(bufio.NewReader(c), &http.Request{Method: "GET"})
 		took := time.Since(start)
 		hx.Eval()
-		ctx := fmt.Sprintf("listener rt=%v wt=%v, proxy.responseheadertimeout=%v, upstream answers after %v", rt, wt, T, D)
+		ctx := fmt.Sprintf("listener rt=%v wt=%v it=%v, proxy.responseheadertimeout=%v, upstream answers after %v", rt, wt, it, T, D)
 		if err != nil {
 			t.Fatalf("no response (%v after %v)\n%s", err, took.Round(time.Millisecond), ctx)
 		}
